@@ -480,6 +480,11 @@ def documents(tier):
     for x in trees(1):
         docs.append({"k": {"deep": {"deeper": x}}})
         docs.append({"k": [{"z": x}, {"z": complex(0, 1)}]})
+    # acyclic documents in which one container object is referenced from several places (the same line record for three lines)
+    for x in ({"V": complex(230, 0), "r": 1.5}, [1.0, {"V": complex(0, -2)}], [complex(1, 1), 2.0]):
+        docs.append({"L1": x, "L2": x, "L3": x})
+        docs.append({"k": [x, 3.0, x]})
+        docs.append({"k": [[x, x], {"again": x}]})
     return docs
 
 
